@@ -64,3 +64,43 @@ def udp_ports(n=4):
     if base + PORTS_PER_SLOT > 20000:
         base = 21000 + (s - 150) * PORTS_PER_SLOT
     return [base + i for i in range(n)]
+
+
+_VOFFSET = [0.0]
+
+
+class virtual_time:
+    """While active, the event loop's clock is the harness's: whenever the loop would block waiting for a timer and no
+    socket is ready, the clock jumps to that timer instead (after a 2 ms real grace for the kernel).  A device that
+    takes an hour to answer costs milliseconds, and every timeout inside the code under test is reachable.  Client and
+    fake device share the loop and loopback delivery is synchronous, so nothing is 'in flight' when the loop blocks."""
+    GRACE = 0.002
+
+    def __init__(self):
+        self.lp = loop()
+        self.jumped = 0.0
+
+    def __enter__(self):
+        import time as _time
+        lp, sel = self.lp, self.lp._selector
+        if not getattr(lp, "_verif_vclock", False):
+            real = _time.monotonic
+            lp.time = lambda: real() + _VOFFSET[0]       # the offset only ever grows: the loop clock stays monotonic
+            lp._verif_vclock = True
+        self._orig_select = sel.select
+
+        def select(timeout=None):
+            if timeout is None or timeout <= self.GRACE:
+                return self._orig_select(timeout)
+            ev = self._orig_select(self.GRACE)
+            if not ev:
+                _VOFFSET[0] += timeout - self.GRACE
+                self.jumped += timeout - self.GRACE
+            return ev
+
+        sel.select = select
+        return self
+
+    def __exit__(self, *a):
+        self.lp._selector.select = self._orig_select
+        return False
